@@ -57,4 +57,21 @@ def singled : List Nat :=
   [Id.WengertList, Id.Record, Id.RecordContainer, Id.AsRecords, Id.InconsistentHistory,
    Id.InvalidRecordIteratorError, Id.TensorRefMatrix, Id.TensorIterator]
 
+/-- lifetime-carrying public types with their OWN lifetime-relation probes: the tape family (generated
+    table `ENTRIES` of props/c20_lifetimes.py: escapes-the-borrow and outlives-the-tape programs per
+    entry point, three-step and closure probes; probes/fail_record_*.rs) and the matrix partitions
+    (probes/fail_matrix_quadrants_alias.rs, ok_iterators_and_views.rs) -/
+def lifetimeProbedDirectly : List Nat :=
+  [Id.Record, Id.RecordContainer, Id.AsRecords, Id.InconsistentHistory, Id.InvalidRecordIteratorError,
+   Id.MatrixPart, Id.MatrixQuadrants]
+
+/-- lifetime-carrying iterator types: probed per FAMILY, not per struct — one representative of each
+    constructor family has a cannot-outlive / cannot-alias program (probes/fail_iterator_outlives_matrix,
+    fail_matrix_mutated_while_iterating, fail_matrix_resized_while_iterating, fail_matrix_two_mut_iterators,
+    fail_matrix_read_while_mut_iterating, fail_mut_item_aliases_matrix, fail_tensor_mutated_while_iterating,
+    fail_tensor_two_mut_iterators, fail_mut_item_outlives_tensor, fail_mut_item_aliases_tensor), and every
+    one of them is named with an explicit lifetime argument in the generated auto-trait probes -/
+def lifetimeProbedByFamily : List Nat :=
+  sharedBorrowIterators ++ mutBorrowIterators ++ [Id.TensorIterator]
+
 end EasyMl.SendSync
